@@ -14,7 +14,8 @@ for root, _, files in os.walk(src):
         lines = open(p).read().split('\n')
         res = []
         for i, ln in enumerate(lines):
-            if ln.startswith('func ') and not (i > 0 and lines[i-1].startswith('//go:norace')):
+            # functions marked //verif:instrumented stay visible to the detector on purpose (synthetic accesses)
+            if ln.startswith('func ') and not (i > 0 and (lines[i-1].startswith('//go:norace') or lines[i-1].startswith('//verif:instrumented'))):
                 res.append('//go:norace')
             res.append(ln)
         open(out, 'w').write('\n'.join(res))
